@@ -365,8 +365,14 @@ def run_cycles(spec):
                 which = "callbacks" if (now[1] != base[1] or now[3] != base[3]) else "channels"
                 res.violation(f"channel-table-grew:{which}", f"after {n + 1} cycles {shape_counts}: {grown}")
                 break
-            st = lab.gw.remote_status().numchannels
-            rp = int(re.search(r"(\d+) active channels", repr(lab.gw)).group(1))
+            t0 = time.monotonic()
+            while True:
+                gc.collect()
+                st = lab.gw.remote_status().numchannels
+                rp = int(re.search(r"(\d+) active channels", repr(lab.gw)).group(1))
+                if (st == base_status and rp == base_repr) or time.monotonic() - t0 > 5:
+                    break
+                time.sleep(0.01)
             if st != base_status or rp != base_repr:
                 res.violation("reported-channel-count-grew", f"remote_status {base_status}->{st}, repr {base_repr}->{rp}")
     res.case(core.h64("cycles", spec["shard"], tuple(sorted(shape_counts.items()))))
@@ -468,7 +474,12 @@ def run_real(spec):
         res.count("quiescent_checks")
         if not ok:
             res.violation(f"channel-table-grew:real-{spec['spec']}", f"after {spec['n']} cycles {counts}: local {base_l}->{local_tables()} remote {base_r}->{remote_tables()}")
-        st = gw.remote_status().numchannels
+        t0 = time.monotonic()
+        while True:  # the worker forgets a finished exec's channel object asynchronously: poll, bounded
+            st = gw.remote_status().numchannels
+            if st == base_status or time.monotonic() - t0 > 6:
+                break
+            time.sleep(0.05)
         if st != base_status:
             res.violation(f"reported-channel-count-grew:real-{spec['spec']}", f"{base_status}->{st}")
         res.case(core.h64("real", spec["spec"], tuple(sorted(counts.items()))))
